@@ -9,7 +9,7 @@ evaluated; this is syntax-tree rewriting.
 import ast
 
 from .flow import Analysis
-from .astutil import norm
+from .astutil import norm, dotted
 
 
 def clone(node):
@@ -34,6 +34,12 @@ class _Subst(ast.NodeTransformer):
         if isinstance(node.ctx, ast.Load) and node.id in self.env:
             return clone(self.env[node.id])
         return node
+
+    def visit_Attribute(self, node):
+        name = dotted(node)
+        if isinstance(node.ctx, ast.Load) and name is not None and name in self.env:
+            return clone(self.env[name])
+        return self.generic_visit(node)
 
     def visit_Lambda(self, node):
         return node
@@ -67,7 +73,8 @@ class Expand(Analysis):
             if da.get(name) == db.get(name):
                 res[name] = da[name]
             else:
-                res[name] = self._key(ast.Name(id='phi_' + name, ctx=ast.Load()))
+                res[name] = self._key(ast.Name(id='phi_' + name.replace('.', '__'),
+                                               ctx=ast.Load()))
         return tuple(sorted(res.items()))
 
     def equal(self, a, b):
@@ -85,6 +92,8 @@ class Expand(Analysis):
             val = substitute(stmt.value, env)
             if isinstance(tgt, ast.Name):
                 return self._set(state, tgt.id, val)
+            if isinstance(tgt, ast.Attribute) and dotted(tgt) is not None:
+                return self._set(state, dotted(tgt), val)
             if isinstance(tgt, (ast.Tuple, ast.List)):
                 for i, elt in enumerate(tgt.elts):
                     if isinstance(elt, ast.Name):
@@ -97,11 +106,15 @@ class Expand(Analysis):
         elif isinstance(stmt, ast.AnnAssign) and stmt.value is not None \
                 and isinstance(stmt.target, ast.Name):
             return self._set(state, stmt.target.id, substitute(stmt.value, env))
-        elif isinstance(stmt, ast.AugAssign) and isinstance(stmt.target, ast.Name):
-            cur = env.get(stmt.target.id, ast.Name(id=stmt.target.id, ctx=ast.Load()))
+        elif isinstance(stmt, ast.AugAssign) and (isinstance(stmt.target, ast.Name) or (
+                isinstance(stmt.target, ast.Attribute) and dotted(stmt.target) is not None)):
+            tname = dotted(stmt.target)
+            cur = env.get(tname, clone(stmt.target))
+            if hasattr(cur, 'ctx'):
+                cur.ctx = ast.Load()
             val = ast.BinOp(left=clone(cur), op=stmt.op,
                             right=substitute(stmt.value, env))
-            return self._set(state, stmt.target.id, val)
+            return self._set(state, tname, val)
         self.observe(stmt, state)
         return state
 
